@@ -38,6 +38,7 @@ type Step struct {
 // Event is one completed (or still pending) step with its result.
 type Event struct {
 	Seq     int
+	DoneSeq int // order of completion
 	Step    Step
 	Done    bool
 	Err     string `json:",omitempty"`
@@ -132,6 +133,7 @@ type rpcRun struct {
 	mu              sync.Mutex
 	events          []*Event
 	seq             int
+	doneSeq         int
 	handlerReturned bool
 	handlerStarted  bool
 	cancelled       bool
@@ -229,6 +231,8 @@ func (r *rpcRun) exec(a *actor, st Step) (stop bool) {
 	}
 	r.mu.Lock()
 	ev.Done, ev.Err, ev.ErrKind, ev.MsgTag = true, errStr(err), errKind(err), tag
+	r.doneSeq++
+	ev.DoneSeq = r.doneSeq
 	r.flags(ev)
 	r.mu.Unlock()
 	return stop
